@@ -761,8 +761,12 @@ func freeSelfClear(r *lib.Rand) *freeRun {
 		for i := 0; i < ni; i++ {
 			vm.RunString("(function(){ var h = setImmediate(function(){ clearImmediate(h); clearImmediate(h); clearImmediate(null); clearImmediate(undefined) }) })()")
 		}
+		vm.RunString("var __stale = []")
 		for i := 0; i < nt; i++ {
-			vm.RunString("(function(){ var h = setTimeout(function(){ clearTimeout(h); clearTimeout(h); clearTimeout(null) }, 0) })()")
+			vm.RunString("(function(){ var h = setTimeout(function(){ clearTimeout(h); clearTimeout(h); clearTimeout(null) }, 0); __stale.push(h) })()")
+		}
+		for i := 0; i < 1+nt; i++ { // plain timeouts that simply complete; their handles are kept
+			vm.RunString("__stale.push(setTimeout(function(){}, 0)); __stale.push(setImmediate(function(){}))")
 		}
 		for i := 0; i < nv; i++ {
 			vm.RunString("(function(){ var h = setInterval(function(){ clearInterval(h); clearInterval(h); clearInterval(undefined) }, 1) })()")
@@ -770,7 +774,11 @@ func freeSelfClear(r *lib.Rand) *freeRun {
 	})
 	f.sync("set")
 	time.Sleep(4 * time.Millisecond)
-	f.loop.RunOnLoop(func(vm *goja.Runtime) { vm.RunString("setTimeout(function(){ __t(7) }, 2)") })
+	// the probe timeout is set first; then the handles of timers that have already completed are cleared once more (stale
+	// handles: harmless, and in particular they do not belong to any timer created later)
+	f.loop.RunOnLoop(func(vm *goja.Runtime) {
+		vm.RunString("setTimeout(function(){ __t(7) }, 2); (__stale || []).forEach(function(h){ clearTimeout(h); clearImmediate(h); clearInterval(h) })")
+	})
 	deadline := time.Now().Add(2 * time.Second)
 	for {
 		f.mu.Lock()
@@ -911,6 +919,75 @@ func freeRestartWhileStopping(r *lib.Rand) *freeRun {
 	return f
 }
 
+// chain: a function on the loop that submits its successor every time it runs (a polling chain, a recursive setImmediate):
+// the queue is never found empty, yet every single step of the loop is bounded, so Stop() returns, StopNoWait() from a
+// callback stops the loop, and timers keep being served
+func freeChain(r *lib.Rand) *freeRun {
+	mode := r.Intn(3)
+	f := newFreeRun("chain", fmt.Sprintf("mode=%d", mode))
+	f.loop.Run(func(vm *goja.Runtime) { f.install(vm) })
+	var stopChain int32
+	var link func(*goja.Runtime)
+	links := int32(0)
+	link = func(*goja.Runtime) {
+		atomic.AddInt32(&links, 1)
+		if atomic.LoadInt32(&stopChain) == 0 {
+			f.loop.RunOnLoop(link)
+		}
+	}
+	switch mode {
+	case 0, 1: // Go-side chain on a started loop; Stop() from the controller
+		f.start()
+		f.loop.RunOnLoop(link)
+		if mode == 1 {
+			f.loop.RunOnLoop(func(vm *goja.Runtime) { vm.RunString("setTimeout(function(){ __t(3) }, 1)") })
+		}
+		time.Sleep(time.Duration(500+r.Intn(2000)) * time.Microsecond)
+		if _, ok := f.stop(r); !ok {
+			atomic.StoreInt32(&stopChain, 1)
+			return f
+		}
+		if mode == 1 {
+			f.mu.Lock()
+			n := f.fired[3]
+			f.mu.Unlock()
+			_ = n // a 1 ms timeout may or may not have been served before the stop; after the restart it must be
+		}
+		before := atomic.LoadInt32(&links)
+		time.Sleep(600 * time.Microsecond)
+		if atomic.LoadInt32(&links) != before {
+			f.fail("free-callback-while-stopped", "the chain kept running after Stop() had returned")
+		}
+		f.start()
+		time.Sleep(3 * time.Millisecond)
+		if atomic.LoadInt32(&links) == before {
+			f.fail("free-accepted-function-never-ran", "the chain did not resume after the restart")
+		}
+		if mode == 1 {
+			f.mu.Lock()
+			n := f.fired[3]
+			f.mu.Unlock()
+			if n != 1 {
+				f.fail("free-uncleared-timeout-never-ran", fmt.Sprintf("a 1 ms timeout set next to a busy chain ran %d times although the loop ran for several ms", n))
+			}
+		}
+		atomic.StoreInt32(&stopChain, 1)
+		f.sync("chain end")
+	default: // JS chain of immediates inside Run(); a timeout callback calls StopNoWait()
+		atomic.StoreInt32(&f.stopped, 0)
+		f.within("free-run-did-not-return-after-stop", "Run() with a recursive setImmediate chain whose 2 ms timeout calls StopNoWait()", 4*time.Second, func() {
+			f.loop.Run(func(vm *goja.Runtime) {
+				vm.Set("__snw", func() { f.loop.StopNoWait() })
+				vm.RunString("var __go = true; function __tick(){ if (__go) setImmediate(__tick) } __tick(); setTimeout(function(){ __snw() }, 2); setTimeout(function(){}, 3600000)")
+			})
+		})
+		atomic.StoreInt32(&f.stopped, 1)
+		f.loop.RunOnLoop(func(vm *goja.Runtime) { vm.RunString("__go = false") })
+	}
+	f.finish()
+	return f
+}
+
 // runFree executes n free-running scenarios and returns the failures (one per oracle and kind at most) and statistics
 func runFree(r *lib.Rand, n int, profile string, outPath string) ([]lib.ImplFailure, map[string]int) {
 	eventloop.VerifHook = perturbHook
@@ -919,8 +996,8 @@ func runFree(r *lib.Rand, n int, profile string, outPath string) ([]lib.ImplFail
 	seen := map[string]bool{}
 	hungScenarios := 0
 	var out []lib.ImplFailure
-	kinds := []func(*lib.Rand) *freeRun{freeLifecycle, freeLifecycle, freeBurst, freeCount, freeStopDuringRun, freeExpiredCleared, freeSelfClear, freeStopNoWaitAtQuiescence, freeTerminateBacklog, freeTerminatedStays, freeRestartWhileStopping}
-	bias := map[string][]int{"overlap": {0, 4, 10}, "fifo": {2}, "timers": {6, 5}, "count": {3, 7}, "stop": {4, 7}, "terminate": {5, 8, 9}}[profile]
+	kinds := []func(*lib.Rand) *freeRun{freeLifecycle, freeLifecycle, freeBurst, freeCount, freeStopDuringRun, freeExpiredCleared, freeSelfClear, freeStopNoWaitAtQuiescence, freeTerminateBacklog, freeTerminatedStays, freeRestartWhileStopping, freeChain}
+	bias := map[string][]int{"overlap": {0, 4, 10}, "fifo": {2}, "timers": {6, 5, 6}, "count": {3, 7}, "stop": {4, 7, 11}, "terminate": {5, 8, 9}}[profile]
 	for i := 0; i < n; i++ {
 		k := r.Intn(len(kinds))
 		if r.Chance(40) {
@@ -929,7 +1006,7 @@ func runFree(r *lib.Rand, n int, profile string, outPath string) ([]lib.ImplFail
 		var f *freeRun
 		seed := r.U64()
 		// a crash inside a goroutine of the library cannot be recovered: leave the scenario behind for the replay
-		lib.Breadcrumb(outPath, fmt.Sprintf("free-running scenario %d: kind index %d (0,1 lifecycle; 2 burst; 3 count; 4 stop-during-run; 5 expired-then-cleared; 6 self-clear; 7 stopnowait-at-quiescence; 8 terminate-with-backlog; 9 terminated-stays-terminated; 10 restart-while-stopping), scenario seed %d", i, k, seed))
+		lib.Breadcrumb(outPath, fmt.Sprintf("free-running scenario %d: kind index %d (0,1 lifecycle; 2 burst; 3 count; 4 stop-during-run; 5 expired-then-cleared; 6 self-clear; 7 stopnowait-at-quiescence; 8 terminate-with-backlog; 9 terminated-stays-terminated; 10 restart-while-stopping; 11 chain), scenario seed %d", i, k, seed))
 		doneCh := make(chan *freeRun, 1)
 		go func() {
 			var g *freeRun
